@@ -321,7 +321,7 @@ def is_generated_normal(n):
 def show_item(case, it, bound):
     kind = case['kind']
     if bound:
-        mat = it.material.id if it.material is not None else 'None'
+        mat = getattr(it.material, 'id', 'not-a-material:%r' % (it.material,)) if it.material is not None else 'None'
     else:
         mat = it.material if it.material is not None else 'None'
     idx = show_idx(it.indices)
